@@ -517,3 +517,54 @@ def check_shared_factories(ctx, fb, rule):
                 ctx.report(rule, key, f.loc(c), 'a shared core is created with %s references; %s expects %s' % (
                     f.text(c['args'][0]), f.qn, want[f.qn]))
     return n
+
+
+# ------------------------------------------------------------------------------------------------ R-NODEREUSE
+SHARED_REG = ('yaclib::detail::SharedCore::SetCallback', 'yaclib::detail::SharedHandle::SetCallback',
+              'yaclib::detail::SharedCore::SetInline')
+
+
+def check_node_reuse(ctx, fb, rule, scope=None):
+    """A continuation registered on a SHARED core is linked into that core's intrusive list through its own `next`
+    field, so one callback object can be registered on at most one shared core at a time.  Every registration site
+    on a shared core that can execute more than once in a function (it lies on a CFG cycle, or the function has
+    several such sites) must pass a per-registration object (an element selected by a varying index), never a
+    loop-invariant one (*this, a parameter, one fixed member)."""
+    n = 0
+    for f in fb.fn.values():
+        if f.cfg is None or not f.qn.startswith('yaclib::') or (scope is not None and not scope(f)):
+            continue
+        sites = []
+        for c in f.own_nodes():
+            cn = c.get('cn')
+            if cn in SHARED_REG or (cn == 'yaclib::detail::BaseCore::SetCallbackImpl' and
+                                    (c.get('cta') or ['?'])[0] in ('true', '1')):
+                if f.qn in SHARED_REG or f.qn.startswith('yaclib::detail::BaseCore::Set'):
+                    continue  # forwarders
+                sites.append(c)
+        if not sites:
+            continue
+        loops = f.cfg.loops()
+        for c in sites:
+            n += 1
+            arg = c['args'][0]
+            varying = False
+            for d in f.descendants(arg):
+                x = f.nodes[d]
+                if x['k'] == 'ArraySubscriptExpr' or (x['k'] == 'CXXOperatorCallExpr' and x.get('op') == '[]') or \
+                        (x['k'] == 'UnaryOperator' and x.get('op') in ('++', '--')) or \
+                        (x['k'] == 'CallExpr' and x.get('cn') == 'std::get'):
+                    varying = True
+            pos = f.cfg.pos_of(c['i'])
+            in_loop = bool(pos and pos[0] in loops)
+            key = 'R-NODEREUSE %s' % f.qn
+            ctx.instance(rule, key + ' :: ' + f.full[:120], dict(site=f.loc(c), arg=f.text(arg), in_loop=in_loop,
+                                                                per_registration_object=varying))
+            same = [o for o in sites if o is not c and f.text(o['args'][0]) == f.text(arg)]
+            if not varying and (in_loop or same):
+                ctx.report(rule, key, f.loc(c),
+                           'the same callback object (%s) is registered on several shared cores: a shared core links '
+                           'its subscribers through the callback\'s own next field, so the second registration '
+                           'overwrites the first list\'s link (subscribers cut off or spliced into another list)' %
+                           f.text(arg), 'function: ' + f.full[:300])
+    return n
